@@ -214,6 +214,10 @@ def World.onLoadQ (w : World) (toks : List String) : World :=
   | none => w
   | some hs =>
     let raw : List RawHead := hs.map (fun e => { entry := e })
+    -- `LoadMoreFrom` hands its entries to the replicator as they are (no `Sync`)
+    if w.pending.headD "" == "inject" && arg w.pending "route" == "loadmore" then
+      (if hs.map (·.hash) != impl then w.fail "corr" "loadq" s!"peer {p}: LoadMoreFrom hands {showNums impl} to the replicator, given {showNums (hs.map (·.hash))}" else w)
+    else
     match syncHeads w.acl (w.curDb + 1) raw [] with
     | SyncOutcome.load es =>
       let model := es.map (·.hash)
